@@ -187,6 +187,10 @@ func getGuardianSetsFromChain(ctx context.Context, contract *abi.Abi, fromIndex,
 		if err != nil {
 			return nil, err
 		}
+		if len(res.Keys) == 0 {
+			// the contract returns the zero value for an index that does not exist (yet)
+			return nil, fmt.Errorf("guardian set %v does not exist", index)
+		}
 		guardianSets = append(guardianSets, &common.GuardianSet{
 			Keys:  res.Keys,
 			Index: index,
